@@ -36,7 +36,9 @@ void feat_override(Store &st, const Fault &f) {
         bool nosettings = r.chance(1, 9);
         if (!nosettings) {
             u32 maxv = w >= 16 ? (r.chance(1, 2) ? 0xFFFF : 0x8000 + r.below(0x7FFF)) : ((1u << (w - 1)) + r.below(1u << (w - 1)));
-            unsigned ns = 1 + r.below(5);
+            const bool all_zero = r.chance(1, 10);     // every defined setting has the value 0 (a lone "Default"): the largest setting is 0, not "none defined"
+            if (all_zero) { maxv = 0; w = 0; }
+            unsigned ns = 1 + r.below(all_zero ? 2 : 5);
             unsigned maxpos = r.below(ns);
             for (unsigned k = 0; k < ns; ++k) { u32 v = k == maxpos ? maxv : r.below(maxv + 1); s.settings.push_back(std::make_pair(int(v), next_name++)); }
             bitpos += w;
